@@ -11,6 +11,7 @@ import (
 	"os"
 	"path"
 	"strconv"
+	"strings"
 	"time"
 
 	"github.com/ava-labs/avalanchego/ids"
@@ -65,16 +66,45 @@ func GetPort(uri string) (string, error) {
 	return purl.Port(), err
 }
 
+// balanceUnit is the number of base units per token (10^consts.Decimals).
+var balanceUnit = func() uint64 {
+	unit := uint64(1)
+	for i := 0; i < consts.Decimals; i++ {
+		unit *= 10
+	}
+	return unit
+}()
+
+// FormatBalance renders [bal] (in base units) as a decimal token amount with
+// exactly consts.Decimals fractional digits. Integer arithmetic only, so every
+// uint64 balance is rendered exactly.
 func FormatBalance(bal uint64) string {
-	return strconv.FormatFloat(float64(bal)/math.Pow10(int(consts.Decimals)), 'f', int(consts.Decimals), 64)
+	frac := strconv.FormatUint(bal%balanceUnit, 10)
+	return strconv.FormatUint(bal/balanceUnit, 10) + "." + strings.Repeat("0", consts.Decimals-len(frac)) + frac
 }
 
+// ParseBalance parses a decimal token amount ("12", "12.5", ".5", "12.") with at
+// most consts.Decimals fractional digits into base units. It is exact for every
+// amount that fits into a uint64 and returns an error otherwise.
 func ParseBalance(bal string) (uint64, error) {
-	f, err := strconv.ParseFloat(bal, 64)
-	if err != nil {
-		return 0, err
+	whole, frac, _ := strings.Cut(bal, ".")
+	if (len(whole) == 0 && len(frac) == 0) || len(frac) > consts.Decimals {
+		return 0, &strconv.NumError{Func: "ParseBalance", Num: bal, Err: strconv.ErrSyntax}
 	}
-	return uint64(f * math.Pow10(int(consts.Decimals))), nil
+	digits := whole + frac + strings.Repeat("0", consts.Decimals-len(frac))
+	var v uint64
+	for i := 0; i < len(digits); i++ {
+		c := digits[i]
+		if c < '0' || c > '9' {
+			return 0, &strconv.NumError{Func: "ParseBalance", Num: bal, Err: strconv.ErrSyntax}
+		}
+		d := uint64(c - '0')
+		if v > (math.MaxUint64-d)/10 {
+			return 0, &strconv.NumError{Func: "ParseBalance", Num: bal, Err: strconv.ErrRange}
+		}
+		v = v*10 + d
+	}
+	return v, nil
 }
 
 func Repeat[T any](v T, n int) []T {
